@@ -42,6 +42,7 @@ type frame struct {
 	visits  map[*ssa.BasicBlock]int
 	caller  *frame
 	callPos token.Pos
+	cutDone bool // loop-cut induction: the header has been havocked in this activation
 }
 
 type Exec struct {
@@ -91,6 +92,7 @@ type Exec struct {
 	recCount   map[*ssa.Function]int
 	condWaits  int
 	records    map[string]Value
+	loopCuts   map[*ssa.Function]*loopCut
 }
 
 type goRec struct {
@@ -251,6 +253,47 @@ func (e *Exec) unsupported(format string, a ...interface{}) {
 		panic(specAbort{"unsupported"})
 	}
 	panic(unsupported{fmt.Sprintf(format, a...) + " [" + strings.Join(e.stack, " > ") + "]"})
+}
+
+// ---------- loop-cut induction ----------
+
+// loopCut: the loop with header block `header` of one function is not unrolled.  On first arrival the
+// harness hook `base` checks the invariant on the real entry state, `havoc` returns an arbitrary state
+// satisfying the invariant (assigned to the header's phi nodes; the hook also havocs loop-written
+// memory), one arbitrary iteration runs on the real code, and on the next arrival `step` checks that
+// the invariant is re-established (and progress was made); that path ends there.  The exit edge taken
+// from the havocked header continues into the caller's post-conditions.
+type loopCut struct {
+	header            *ssa.BasicBlock
+	phis              []*ssa.Phi
+	base, havoc, step *ssa.Function
+}
+
+func (e *Exec) loopCutAt(f *frame, cut *loopCut) {
+	args := []Value{e.val(f, f.fn.Params[0])}
+	for _, p := range cut.phis {
+		args = append(args, e.val(f, p))
+	}
+	if !f.cutDone {
+		f.cutDone = true
+		e.callFunc(cut.base, args, nil, cut.header.Instrs[0].Pos())
+		res := e.callFunc(cut.havoc, args[:1], nil, cut.header.Instrs[0].Pos())
+		var vals []Value
+		if t, ok := res.(Tuple); ok {
+			vals = t
+		} else {
+			vals = []Value{res}
+		}
+		if len(vals) != len(cut.phis) {
+			e.unsupported("loop-cut: havoc hook returns %d values for %d loop variables", len(vals), len(cut.phis))
+		}
+		for i, p := range cut.phis {
+			e.setv(f, p, vals[i])
+		}
+		return
+	}
+	e.callFunc(cut.step, args, nil, cut.header.Instrs[0].Pos())
+	panic(pathEnd{"loop-cut"})
 }
 
 // ---------- value lookup ----------
@@ -464,6 +507,11 @@ func (e *Exec) run(f *frame) Value {
 				}
 			}
 			skipPhis = false
+		}
+		if e.spec == 0 && len(e.loopCuts) > 0 {
+			if cut := e.loopCuts[f.fn]; cut != nil && b == cut.header {
+				e.loopCutAt(f, cut)
+			}
 		}
 		for ; i < len(b.Instrs); i++ {
 			in := b.Instrs[i]
